@@ -186,8 +186,22 @@ def gen_hdc_cases(rng, n, thorough):
         n_dim = 2 if rng.integers(0, 3) else 3
         table = rng.integers(0, 3) == 0
         alpha = float(10 ** rng.uniform(-6, math.log10(0.3)))
+        real_line = None
         if table:
             m = models.random_fam_model(rng, n_dim=n_dim)
+            leaves = [i for i in range(n_dim) if i not in m.cond]
+            if leaves and rng.integers(0, 5) < 2:
+                # a shipped family with support on the whole real line (Normal) and noticeable mass at / below 0 in a
+                # dimension nothing is conditioned on: the grid may then start below 0 or cut through the mass at 0
+                real_line = int(rng.choice(leaves))
+                mu0 = float(rng.uniform(-0.5, 1.5))
+                d = m.dims[real_line]
+                d["family"] = "Normal"
+                d["params"] = {"mu": ("fixed", mu0) if d["cond"] is None or rng.integers(0, 2) else
+                               ("dep", "linear2", [mu0, float(rng.uniform(0.01, 0.1))]),
+                               "sigma": ("fixed", float(rng.uniform(0.5, 1.5)))}
+                if d["cond"] is not None and d["params"]["mu"][0] == "fixed":
+                    d["params"]["sigma"] = ("dep", "asym3", [float(v) for v in models.random_dep_pars(rng, "asym3", 1.0)])
         else:
             m = doubles.random_model(rng, n_dim=n_dim)
         cells = int(rng.integers(10, (80 if not thorough else 400) if n_dim == 2 else (20 if not thorough else 60)))
@@ -203,6 +217,9 @@ def gen_hdc_cases(rng, n, thorough):
             q = float(np.quantile(col, 1 - min(0.5, alpha / (4 * n_dim)))) if len(col) else 10.0
             hi = max(q * float(rng.uniform(0.7, 1.6)), 0.5)
             lo = float(rng.choice([0.0, 0.0, 0.1]))
+            if i == real_line and rng.integers(0, 3):
+                ql = float(np.quantile(col, min(0.5, alpha / (4 * n_dim))))
+                lo = min(ql * float(rng.uniform(0.7, 1.6)), -0.5)
             limits.append((lo, hi))
             deltas.append((hi - lo) / (cells * float(rng.uniform(0.8, 1.25))))
         form = int(rng.integers(0, 3))
@@ -213,7 +230,7 @@ def gen_hdc_cases(rng, n, thorough):
             if min((hi - lo) / dmax for lo, hi in limits) >= 4:
                 deltas = dmax
         yield {"part": "C", "mode": "table" if table else "doubles", "alpha": alpha, "model": m.describe(),
-               "limits": limits, "deltas": deltas}
+               "limits": limits, "deltas": deltas, "real_line_dim": real_line}
 
 
 def gen_int_grid_cases(rng, n):
@@ -378,6 +395,8 @@ def process_hdc(ck, case):
     ck.case(case, nontrivial=desc.n_dependent() >= 1)
     ck.count("part=C")
     ck.count("C_mode=" + case["mode"])
+    if case.get("real_line_dim") is not None:
+        ck.count("C_real_line_family" + ("_negative_lower_limit" if case["limits"][case["real_line_dim"]][0] < 0 else "_limit_at_0"))
     ck.count(f"C_n_dim={n_dim}")
     ck.count("C_deltas=" + ("scalar" if not isinstance(case["deltas"], list) else "list"))
     if "err" in impl:
